@@ -691,8 +691,13 @@ func decodeAllFlavours(rep *Report, in []byte, cmp, fault bool, r *rand.Rand, de
 		if fl == 0 {
 			first = o
 		} else if !sameDecObs(first, o) {
-			rep.violate("C04", "reader-flavour-dependent", fmt.Sprintf("reader %q: %d tokens, %v @%d; reader %q: %d tokens, %v @%d (cmp=%v fault=%v)",
-				readerFlavours[0], len(first.toks), first.err, first.off, readerFlavours[fl], len(o.toks), o.err, o.off, cmp, fault), desc)
+			what := fmt.Sprintf("reader %q: %d tokens, %v @%d; reader %q: %d tokens, %v @%d (cmp=%v fault=%v)",
+				readerFlavours[0], len(first.toks), first.err, first.off, readerFlavours[fl], len(o.toks), o.err, o.off, cmp, fault)
+			rep.violate("C04", "reader-flavour-dependent", what, desc)
+			if fault {
+				// with an injected reader error this is also a C15 matter: tokens fabricated / lost around the fault
+				rep.violate("C15", "reader-fault-flavour-dependent", what, desc)
+			}
 		}
 	}
 	return first
